@@ -9,48 +9,59 @@ from . import rules_cache, rules_guard, rules_fs, rules_ef, rules_sd, rules_walk
 PROPS = {}
 
 # Additional property coverage of rules (each rule is a necessary condition of these properties too):
-EXTRA = {
-    "OR2": ["C01", "C09"],   # a truncated chain that is not terminated / freed correctly aliases other files' data
-    "FT9": ["C01", "C09"],
-    "OR4": ["C03", "C01"],   # recorded length never runs ahead of the data/chain actually written
-    "LS4": ["C04", "C07", "C02"],   # walker extent decides which blocks a create may write; lookup extent decides 'exists'
-    "CD1": ["C09"],          # the flushed entry must encode the start cluster correctly
-    "CD4": ["C09"],
-    "SD9": ["C12"],          # framing of data packets decides which bytes are taken as the next block
-    "SD10": ["C12"],
-    "OR6": ["C11"],          # delete frees the chain only after the entry is gone: a failed delete never leaves a live entry on freed clusters
-    "BM1": ["C02"],
-    "MD9x": ["C09"],
-    "EF1": ["C07", "C03"],
-    "SD2": ["C12"],
+EXTRA_PAIRS = [
+    ("OR2", ["C01", "C09"]),   # a truncated chain that is not terminated / freed correctly aliases other files' data
+    ("FT9", ["C01", "C09"]),
+    ("OR4", ["C03", "C01"]),   # recorded length never runs ahead of the data/chain actually written
+    ("LS4", ["C04", "C07", "C02", "C09"]),   # walker extent decides which blocks a create may write; lookup extent decides 'exists'
+    ("CD1", ["C09"]),          # the flushed entry must encode the start cluster correctly
+    ("CD4", ["C09"]),
+    ("SD9", ["C12"]),          # framing of data packets decides which bytes are taken as the next block
+    ("SD10", ["C12"]),
+    ("OR6", ["C11"]),          # delete frees the chain only after the entry is gone: a failed delete never leaves a live entry on freed clusters
+    ("BM1", ["C02"]),
+    ("MD9x", ["C09"]),
+    ("EF1", ["C07", "C03"]),
+    ("SD2", ["C12"]),
     # --- round 4: a rule that already explains the breakage also answers for the property the change was written against
-    "FT11": ["C01", "C02", "C04"],   # a cluster number beyond the volume: data lands behind the partition / in the next volume
-    "FT5": ["C01", "C10", "C02"],
-    "OR1": ["C01", "C09", "C02", "C05"],   # a "new" cluster not verified free is somebody else's data
-    "OR5": ["C06", "C04", "C09"],    # the blanked extent of a new directory cluster is exactly that cluster (not one block more)
-    "SK2": ["C03", "C05"],           # extension from a stale cursor orphans the tail of the chain (leaked clusters)
-    "IS4": ["C05"],                  # a stale FSInfo count must not make the volume refuse allocations while the FAT has free clusters
-    "NE1": ["C09"],                  # a wrong recorded entry position makes the next flush overwrite another file's entry
-    "SD1": ["C13"],                  # response masks / tokens decide what counts as "accepted"
-    "FA1": ["C03"],                  # a start cluster cut to 16 bits frees / cross-links somebody else's chain
-    "LS3": ["C07", "C02"],                  # lookup must see every live entry: 'exists' decides create / FileAlreadyExists / NotFound
-    "RL1": ["C11"],                  # a failed call must not leave an unclosable handle behind (API wedged)
-    "SD17": ["C12"],                 # stray bytes on MOSI during a multi-block read can be a STOP_TRANSMISSION frame
-    "FT2": ["C10", "C01", "C02", "C09"],   # a mirror write at the wrong block overwrites the root directory / data
-    "FT12": ["C10"],
+    ("FT11", ["C01", "C02", "C04"]),   # a cluster number beyond the volume: data lands behind the partition / in the next volume
+    ("FT5", ["C01", "C10", "C02"]),
+    ("OR1", ["C01", "C09", "C02", "C05"]),   # a "new" cluster not verified free is somebody else's data
+    ("OR5", ["C06", "C04", "C09"]),    # the blanked extent of a new directory cluster is exactly that cluster (not one block more)
+    ("SK2", ["C03", "C05"]),           # extension from a stale cursor orphans the tail of the chain (leaked clusters)
+    ("IS4", ["C05"]),                  # a stale FSInfo count must not make the volume refuse allocations while the FAT has free clusters
+    ("NE1", ["C09"]),                  # a wrong recorded entry position makes the next flush overwrite another file's entry
+    ("SD1", ["C13"]),                  # response masks / tokens decide what counts as "accepted"
+    ("FA1", ["C03"]),                  # a start cluster cut to 16 bits frees / cross-links somebody else's chain
+    ("LS3", ["C07", "C02"]),                  # lookup must see every live entry: 'exists' decides create / FileAlreadyExists / NotFound
+    ("RL1", ["C11"]),                  # a failed call must not leave an unclosable handle behind (API wedged)
+    ("SD17", ["C12"]),                 # stray bytes on MOSI during a multi-block read can be a STOP_TRANSMISSION frame
+    ("FT2", ["C10", "C01", "C02", "C09"]),   # a mirror write at the wrong block overwrites the root directory / data
+    ("FT12", ["C10"]),
     # --- consequences spelled out (a violated structural rule breaks every property that relies on the structure)
-    "MT2": ["C02", "C04"], "MT3": ["C02", "C04"], "MT6": ["C02", "C04"],   # wrong geometry: an independent reader disagrees; writes land in the wrong region
-    "FT3": ["C01", "C02", "C09"], "FT4": ["C01", "C02", "C09"],          # a FAT entry written at the wrong place / width cross-links or loses chains
-    "LS1": ["C02"], "LS2": ["C02"],                                        # a fresh mount lists the flushed files
-    "LS5": ["C01", "C02", "C03"], "CD4": ["C01", "C02", "C03"],           # a wrongly decoded start cluster reads / frees somebody else's chain
-    "WR1": ["C02", "C09"], "SK5": ["C02"],                                 # what write() puts on the medium is what a fresh mount reads
-    "BC2": ["C02", "C09"], "BC3": ["C02"], "BC5": ["C02"],
-    "DK1": ["C01"],                                                        # everything reported as written is readable
-    "DD1": ["C06", "C10"],                                                 # '.' and '..' lead to the directory they designate
-    "CR1": ["C14", "C12"], "CR2": ["C13", "C14", "C12"],                   # the checksums the frames / the read check rely on
-    "CD2": ["C02"], "CD3": ["C06", "C07"], "CD5": ["C06"],                 # stored mtime; names decide lookups
-    "MT0": ["C04"],          # a frame without a valid CRC-7 is rejected by cards that check it (CMD0/CMD8 always do)   # create only when the name is definitively absent (no error masquerading as NotFound): unique names
-}
+    ("MT2", ["C02", "C04"]), ("MT3", ["C02", "C04"]), ("MT6", ["C02", "C04"]),   # wrong geometry: an independent reader disagrees; writes land in the wrong region
+    ("FT3", ["C01", "C02", "C09"]), ("FT4", ["C01", "C02", "C09"]),          # a FAT entry written at the wrong place / width cross-links or loses chains
+    ("LS1", ["C02"]), ("LS2", ["C02"]),                                        # a fresh mount lists the flushed files
+    ("LS5", ["C01", "C02", "C03", "C04"]), ("CD4", ["C01", "C02", "C03", "C04"]),           # a wrongly decoded start cluster reads / frees somebody else's chain
+    ("WR1", ["C02", "C09"]), ("SK5", ["C02"]),                                 # what write() puts on the medium is what a fresh mount reads
+    ("BC2", ["C02", "C09"]), ("BC3", ["C02"]), ("BC5", ["C02"]),
+    ("DK1", ["C01"]),                                                        # everything reported as written is readable
+    ("DD1", ["C06", "C10"]),                                                 # '.' and '..' lead to the directory they designate
+    ("CR1", ["C14", "C12"]), ("CR2", ["C13", "C14", "C12"]),                   # the checksums the frames / the read check rely on
+    ("CD2", ["C02"]), ("CD3", ["C06", "C07"]), ("CD5", ["C06"]),                 # stored mtime; names decide lookups
+    ("MT0", ["C04"]),
+    # --- round 5
+    ("FL2", ["C08"]),   # close always frees the slot and invalidates the handle
+    ("FT6", ["C16"]),   # an allocation that fails after the FAT update leaves the free count untrue
+    ("SD2", ["C12", "C19"]),   # the checksum on the wire is crc7 of the frame, for every command and CRC mode
+    ("BC1", ["C02"]),
+    ("OR6", ["C11", "C03"]),   # a failed delete must not leave a live entry whose chain is already free
+    ("CD1", ["C10"]),   # an entry naming the wrong start cluster refers to a free / foreign cluster          # a frame without a valid CRC-7 is rejected by cards that check it (CMD0/CMD8 always do)   # create only when the name is definitively absent (no error masquerading as NotFound): unique names
+]
+EXTRA = {}
+for _k, _v in EXTRA_PAIRS:      # a rule may be listed several times (one line per reason): the lists add up
+    EXTRA.setdefault(_k, [])
+    EXTRA[_k] += [x for x in _v if x not in EXTRA[_k]]
 for _r, _ps in EXTRA.items():
     if _r in RULES:
         for _p_ in _ps:
